@@ -20,7 +20,7 @@ WellFormed(e, dm, dv) ==
 
 SameOutcome(a, b, up) ==        \* two calls end alike (products equal as circles; up = compare case-insensitively)
   /\ a.kind = b.kind
-  /\ a.kind = "error" => a.exc = b.exc /\ Eq(a.attr_ovh, b.attr_ovh)
+  /\ a.kind = "error" => a.isa = b.isa /\ Eq(a.attr_ovh, b.attr_ovh)
   /\ a.kind = "product" => IF up THEN CycEq(UpperW(a.seq), UpperW(b.seq)) ELSE CycEq(a.seq, b.seq)
 
 \* ---- fragment map: where the nucleotides (and so the features) of each input end up -------
@@ -51,7 +51,7 @@ AnnotationFails(e, dm, dv, chain) ==
       ks     == IF out.seq = F THEN {0} ELSE {(P - k) % P : k \in CycOffsets(out.seq, F)}   \* out = F rotated right by k
       \* generated provenance feature of piece j under alignment k
       span(j, k) == {(offs[j] + i + k) % P : i \in 0..(Len(pieces[j]) - 1)}
-      isGen(g, j, k) == g.type = "source" /\ g.srclabel /\ g.plasmid = src(j).id /\ Positions(g) = span(j, k)
+      isGen(g, j, k) == g.type = "source" /\ g.plasmid = src(j).id /\ Positions(g) = span(j, k)     \* names the input, spans its fragment
       gens(k) == {i \in 1..Len(out.feats) : \E j \in 1..(m + 1) : isGen(out.feats[i], j, k)}
       \* expected images of the input features lying entirely inside their retained fragment
       images(k) == Concat([j \in 1..(m + 1) |->
@@ -78,7 +78,7 @@ AnnotationFails(e, dm, dv, chain) ==
           \cup Chk("C09:SourcesVerbatim",
                    \A i \in 1..Len(out.feats) :
                       LET g == out.feats[i] IN
-                      (g.type = "source" /\ g.srclabel /\ Len(g.parts) = 1 /\ \E x \in {e.vec} \cup SeqToSet(e.mods) : x.id = g.plasmid) =>
+                      (g.type = "source" /\ Len(g.parts) = 1 /\ \E x \in {e.vec} \cup SeqToSet(e.mods) : x.id = g.plasmid) =>
                          \E x \in {e.vec} \cup SeqToSet(e.mods) :
                             x.id = g.plasmid /\ LET ix == g.parts[1].idx
                                                    txt == [q \in 1..Len(ix) |-> out.seq[(IF g.parts[1].st = -1 THEN ix[Len(ix) + 1 - q] ELSE ix[q]) + 1]]
@@ -109,16 +109,16 @@ AssembleFails(e) ==
         Chk("C03:OutcomeIsExpected",
             /\ ProductExpected(g) => out.kind = "product"
             /\ out.kind = "product" => ProductAllowed(g)
-            /\ out.kind = "error" => ErrorAllowed(g, out.exc))
+            /\ out.kind = "error" => \E k \in SeqToSet(out.isa) : ErrorAllowed(g, k))
         \* C01: a chain that closes yields the product (what it is, is judged below)
         \cup (IF ProductExpected(g) THEN Chk("C01:ProductReturned", out.kind = "product") ELSE {})
         \* C10: records with citations assemble like records without them
         \cup (IF \E x \in {e.vec} \cup SeqToSet(e.mods) : \E i \in 1..Len(x.feats) : Len(x.feats[i].cites) > 0
               THEN Chk("C10:CitedAssembleLikeUncited",
                        /\ ProductExpected(g) => out.kind = "product"
-                       /\ out.kind = "error" => ErrorAllowed(g, out.exc))
+                       /\ out.kind = "error" => \E k \in SeqToSet(out.isa) : ErrorAllowed(g, k))
               ELSE {})
-        \cup (IF out.kind = "error" /\ out.exc = "MissingModule" /\ ~g.dup /\ g.walk[1] = "missing"
+        \cup (IF out.kind = "error" /\ InSeq("MissingModule", out.isa) /\ ~g.dup /\ g.walk[1] = "missing"
               THEN Chk("C03:MissingNamesStall", Eq(out.attr_ovh, g.walk[2])) ELSE {})
         \cup (IF out.kind = "product" /\ ProductAllowed(g)
               THEN Chk("C03:UnusedExactlyLeftover",
